@@ -25,6 +25,6 @@ Requirements for the change:
   3. Keep it small (a few lines).
 Deliverables, written to {wt}/out/ :
   - patch.diff   : output of `git -C {wt} diff` (the change, relative to HEAD)
-  - demo.py      : a small stand-alone program (only imports classy_blocks / numpy / stdlib) that exits 0 and prints PASS on the unmodified library and exits 1 printing FAIL on the modified one, by checking the property on a concrete input. Check it both ways (use `git stash` / `git stash pop` in the worktree, or apply the patch in reverse) and say what you observed.
+  - demo.py      : a small stand-alone program (only imports classy_blocks / numpy / stdlib) that exits 0 and prints PASS on the unmodified library and exits 1 printing FAIL on the modified one, by checking the property on a concrete input. Check it both ways by applying the patch in reverse and forward again (`git diff > out/patch.diff; git apply -R out/patch.diff; ...; git apply out/patch.diff`) — do NOT use `git stash`: the stash is shared between all worktrees of /repo and other agents work concurrently and say what you observed.
   - notes.md     : 5-10 lines: what was changed, why the tests do not notice, what is needed for it to manifest.
 Do not remove the worktree when done. In your final answer, report: the path of the out/ directory, a one-paragraph description of the change, and the exact commands you ran to confirm (tests unchanged; demo PASS before / FAIL after).""")
